@@ -43,6 +43,7 @@ struct SentReply {
 	dw::Name q_name;	// as it was on the wire (case preserved)
 	uint16_t q_type = 0;
 	bool complete = true;	// TCP: the whole length-prefixed message was sent before any close
+	size_t udp_limit = 0;	// UDP: the resolver's receive buffer (edns-udp-size) when the datagram was sent; a larger datagram arrives cut
 	int64_t t_sent = 0;
 };
 
@@ -116,7 +117,7 @@ struct Run {
 	// wire-level bookkeeping for C34 id uniqueness: id -> request index currently using it
 	// model of the getaddrinfo cache: lower-case node -> (expiry ns, addresses as text, canonname flag)
 	struct CacheEnt { int64_t expiry_ns; std::vector<std::string> v4, v6; bool has_cname; std::string cname; };
-	std::map<std::string, CacheEnt> cache;
+	std::map<std::string, std::vector<CacheEnt>> cache;	// alternatives: which of several network answers the library kept is not always visible
 	bool no_cache = false;
 };
 static Run *R;
@@ -159,10 +160,12 @@ static RefReply ref_read(const std::string &b, int qtype, const dw::Name &wire_q
 	r.header = true;
 	r.id = id; r.flags = fl; r.qd = qd;
 	auto bad = [&]() { if (bounds_reason(d.why)) r.bounds_error = true; else r.odd = true; };
+	auto nul = [&](const dw::Name &n) { for (auto &l : n) if (l.find('\0') != std::string::npos) r.odd = true; };	// the resolver refuses NUL inside a label
 	for (unsigned i = 0; i < qd; i++) {
 		dw::Name n; unsigned t, c;
 		if (!d.name(j, n) || !d.u16(j, t) || !d.u16(j, c)) { bad(); return r; }
 		r.question_present = true;
+		nul(n);
 		// compared as the dotted strings the API deals in (a dot inside a label is not told apart from a label boundary)
 		if (nocase ? dw::lower(dw::dotted(n)) == dw::lower(dw::dotted(wire_q)) : dw::dotted(n) == dw::dotted(wire_q)) r.question_match = true;
 	}
@@ -171,12 +174,14 @@ static RefReply ref_read(const std::string &b, int qtype, const dw::Name &wire_q
 		unsigned t, c, l;
 		if (!d.name(j, rr.name) || !d.u16(j, t) || !d.u16(j, c) || !d.u32(j, rr.ttl) || !d.u16(j, l)) { bad(); return r; }
 		rr.type = t; rr.cls = c;
+		nul(rr.name);
 		if (t == dw::T_CNAME || (t == dw::T_PTR && c == dw::C_IN && qtype == dw::T_PTR)) {
 			// the resolver reads the name where the rdata starts; an RDLENGTH that disagrees with the name's extent (or runs
 			// past the message) makes the record odd, not unreadable
 			size_t k = j;
 			if (!d.name(k, rr.rname)) { bad(); return r; }
 			if (j + l > b.size() || k != j + l) r.odd = true;
+			nul(rr.rname);
 			rr.has_rname = true;
 			j = (j + l <= b.size() && k == j + l) ? j + l : k;
 		} else {
@@ -462,7 +467,9 @@ static void ns_on_query(int nsidx, const std::string &pkt, Ns::Conn *conn, const
 	if (bh.kind == B_TCP_CLOSE_AT && conn) close_at = (int)(bh.a % (bytes.size() + 3));
 	if (bh.kind == B_TCP_RST && conn) rst = true;
 	SentReply sr;
+	// a datagram larger than the resolver's receive buffer (edns-udp-size, 512 by default) arrives cut to that size
 	sr.bytes = bytes;
+	sr.udp_limit = conn ? 0 : (size_t)R->edns;
 	sr.from_ok = !from_aux;
 	sr.tcp = conn != nullptr;
 	sr.ns = nsidx;
@@ -591,9 +598,17 @@ static void check_result(int ri, int result, char type, int count, int ttl, cons
 	}
 	bool any_addressed = false, explained = false;
 	std::string why_not;
+	// a datagram is cut to the receive buffer in force when it is read: the size at send time, or any size set since
+	std::vector<std::pair<int, size_t>> cands;
 	for (int si : q.replies) {
 		const SentReply &s = R->sent[si];
-		RefReply rr = ref_read(s.bytes, q.qtype, s.q_name, R->randomize_case || q.rc);
+		std::set<size_t> lims = {s.udp_limit};
+		if (s.udp_limit) { lims.insert((size_t)R->edns); for (auto &h : R->edns_hist) if (h.first >= s.t_sent) lims.insert((size_t)h.second); }
+		for (size_t l : lims) cands.push_back({si, l});
+	}
+	for (auto &cd : cands) {
+		const SentReply &s = R->sent[cd.first];
+		RefReply rr = ref_read(cd.second && s.bytes.size() > cd.second ? s.bytes.substr(0, cd.second) : s.bytes, q.qtype, s.q_name, R->randomize_case || q.rc);
 		if (!addressed(s, rr)) continue;
 		if (rr.qd || rr.header) R->parsed_beyond_header++;
 		unsigned rcode = rr.flags & dw::F_RCODE;
@@ -602,7 +617,15 @@ static void check_result(int ri, int result, char type, int count, int ttl, cons
 		if (!for_me) { why_not = "a reply with the right id was sent, but its question is '" + std::string(rr.question_present ? "different" : "missing") + "'"; continue; }
 		any_addressed = true;
 		if (result != DNS_ERR_NONE) {
-			if (result == DNS_ERR_NOTEXIST && rcode != 3) continue;
+			// which error may this reply lead to?
+			bool has_answer = q.qtype == dw::T_PTR ? rr.have_ptr : !rr.addrs.empty();
+			bool allows;
+			if (rr.bounds_error || rr.bad_rdlen || rr.odd) allows = true;	// unreadable or unusual: any error
+			else if (rcode) { static const int map[6] = {0, DNS_ERR_FORMAT, DNS_ERR_SERVERFAILED, DNS_ERR_NOTEXIST, DNS_ERR_NOTIMPL, DNS_ERR_REFUSED}; allows = result == (rcode <= 5 ? map[rcode] : DNS_ERR_UNKNOWN); }
+			else if (tc) allows = result == DNS_ERR_TRUNCATED;
+			else if (!has_answer) allows = result == DNS_ERR_NODATA;
+			else { allows = false; why_not = "a readable reply with " + std::to_string(q.qtype == dw::T_PTR ? 1 : rr.addrs.size()) + " record(s) of the queried type was sent for it"; }
+			if (!allows) continue;
 			explained = true;
 			break;
 		}
@@ -630,7 +653,7 @@ static void check_result(int ri, int result, char type, int count, int ttl, cons
 	else if (!any_addressed)
 		V("C33", "C33.unmatched-reply-used", "request %d ('%s' type %d) failed with error %d (%s) although no reply carrying its id and question was sent and no timeout, cancel or shutdown happened (%zu replies sent; %s)", ri, q.name.substr(0, 60).c_str(), q.qtype, result, evdns_err_to_string(result), q.replies.size(), why_not.c_str());
 	else
-		V("C33", "C33.error-not-explained", "request %d: error %d (%s) but no reply sent for it says so", ri, result, evdns_err_to_string(result));
+		V("C33", "C33.error-not-explained", "request %d ('%s' type %d): error %d (%s), but no reply sent for it says so (%zu replies sent; %s)", ri, q.name.substr(0, 60).c_str(), q.qtype, result, evdns_err_to_string(result), q.replies.size(), why_not.c_str());
 }
 
 static void run_ctx_ops(int ri) {
@@ -725,7 +748,7 @@ static void gai_check(int ri, int result, struct evutil_addrinfo *res) {
 			}
 		}
 		auto ce = R->cache.find(node);
-		if (ce != R->cache.end()) { for (auto &a : ce->second.v4) allowed4.push_back(a); for (auto &a : ce->second.v6) allowed6.push_back(a); }
+		if (ce != R->cache.end()) for (auto &alt : ce->second) { for (auto &a : alt.v4) allowed4.push_back(a); for (auto &a : alt.v6) allowed6.push_back(a); }
 	}
 	int n4 = 0, n6 = 0;
 	bool seen6 = false;
@@ -745,6 +768,28 @@ static void gai_check(int ri, int result, struct evutil_addrinfo *res) {
 		if (q.socktype == SOCK_DGRAM && ai->ai_protocol != IPPROTO_UDP) { V("C38", "C38.protocol", "getaddrinfo %d: SOCK_DGRAM with protocol %d", ri, ai->ai_protocol); return; }
 	}
 	R->gai_compared++;
+	if (!q.submitted && !from_hosts && !q.numeric && !(q.gai_flags & EVUTIL_AI_NUMERICHOST)) {
+		// answered at once without hosts entry: from the cache; it must be the whole cached answer (of the hinted families)
+		auto ce = R->cache.find(node);
+		if (ce != R->cache.end()) {
+			std::set<std::string> got;
+			for (struct evutil_addrinfo *ai = res; ai; ai = ai->ai_next) got.insert(sa_text(ai->ai_addr));
+			bool any_valid = false, match = false;
+			std::string detail;
+			for (auto &alt : ce->second) {
+				if (alt.expiry_ns <= G.now_ns) continue;
+				any_valid = true;
+				std::set<std::string> want;
+				if (q.fam != 2) for (auto &a : alt.v4) want.insert(a);
+				if (q.fam != 1) for (auto &a : alt.v6) want.insert(a);
+				if (want == got) match = true;
+				else { detail += (detail.empty() ? "" : " | "); detail += "a cached answer has " + std::to_string(want.size()) + " address(es); missing:"; for (auto &a : want) if (!got.count(a)) detail += " " + a; detail += "; extra:"; for (auto &a : got) if (!want.count(a)) detail += " " + a; }
+			}
+			if (any_valid) probe("cache-hit");
+			if (any_valid && !match && !any_odd)
+				V("C38", "C38.cache-answer-differs", "getaddrinfo %d ('%s'): answered from the cache with %zu address(es); %s", ri, q.name.c_str(), got.size(), detail.c_str());
+		}
+	}
 	{
 		// each address once per socket type the hints allow (two when the type is left open)
 		std::map<std::string, int> cnt;
@@ -782,18 +827,19 @@ static void gai_cb(int result, struct evutil_addrinfo *res, void *arg) {
 		std::string node = lc(q.name);
 		if (!R->no_cache && !q.from_hosts_expected && !q.numeric) {
 			uint32_t maxttl = 0;
-			for (int k = 0; k < 2; k++) if (q.sub[k] >= 0) for (int x : R->reqs[q.sub[k]].replies) {
-				RefReply rr = ref_read(R->sent[x].bytes, R->reqs[q.sub[k]].qtype, R->sent[x].q_name, true);
+			// (replies for this node may have been booked on the sub-questions of another getaddrinfo for the same node)
+			for (auto &sq : R->reqs) if (sq.parent >= 0 && lc(sq.name) == node) for (int x : sq.replies) {
+				RefReply rr = ref_read(R->sent[x].bytes, sq.qtype, R->sent[x].q_name, true);
 				if (rr.min_ttl != 0xffffffffu) maxttl = std::max(maxttl, rr.min_ttl + 64);
 			}
-			Run::CacheEnt ce;
-			auto old = R->cache.find(node);
-			if (old != R->cache.end() && old->second.expiry_ns > G.now_ns) ce = old->second;	// an answer from the cache does not extend its life
-			else {
+			if (q.submitted) {	// a network answer: it may have replaced what was cached, or (delivered by the allow-skew timer) not
+				Run::CacheEnt ce;
 				ce.expiry_ns = G.now_ns + (int64_t)maxttl * NS;
 				for (struct evutil_addrinfo *ai = res; ai; ai = ai->ai_next) (ai->ai_addr->sa_family == AF_INET ? ce.v4 : ce.v6).push_back(sa_text(ai->ai_addr));
+				auto &alts = R->cache[node];
+				alts.push_back(ce);
+				if (alts.size() > 6) alts.erase(alts.begin());
 			}
-			R->cache[node] = ce;
 		}
 	}
 	if (res) evutil_freeaddrinfo(res);
@@ -1305,6 +1351,7 @@ static void execute(const Plan &p) {
 		else if (prop == "C36") G.nontrivial = run.queries_seen > 0;
 		else if (prop == "C33") G.nontrivial = run.parsed_beyond_header > 0;
 		else if (prop == "C38") G.nontrivial = run.gai_compared > 0;
+		else if (prop == "C08") { bool f = false; for (auto &kv : G.cnt) if (kv.first.compare(0, 6, "fault.") == 0 || kv.first == "probe.request-refused") f = true; G.nontrivial = mon::locks_enabled && f && done > 0; }
 		else G.nontrivial = done > 0;
 	}
 	R = nullptr;
@@ -1322,7 +1369,7 @@ static void generate(Plan &p, Rng &r) {
 	p.cfg["lat_min_us"] = r.pick(std::vector<int64_t>{1, 100, 20000});
 	p.cfg["lat_max_us"] = p.cfg["lat_min_us"] + (r.chance(0.5) ? 0 : (int64_t)r.below(400000));
 	p.cfg["connect_lat_us"] = r.pick(std::vector<int64_t>{0, 100, 50000});
-	if (r.chance(prop == "C34" ? 0.5 : 0.2)) {
+	if (r.chance(prop == "C34" ? 0.5 : prop == "C08" ? 0.8 : 0.2)) {
 		static const char *ks[] = {"f_sendto_eagain", "f_sendto_err", "f_recv_eagain", "f_dgram_drop", "f_dgram_dup", "f_dgram_reorder", "f_read_short", "f_write_short", "f_read_eagain"};
 		for (auto k : ks) if (r.chance(0.3)) p.cfg[k] = r.pick(std::vector<int64_t>{10, 50, 200});
 	}
